@@ -278,7 +278,7 @@ def trace_round(ctx, n_sessions, T=16, nfiles=(6, 14)):
     combos = [("yearend6h", l) for l in ("flat", "Y", "Y/M", "Y/M/D", "Y/doy", "tag/Y/M/D", "Y/tag/M/D", "Y2/M/D", "fix/Y/M/D",
                                            "Y/M/D/tag", "Y/M/tag/D")] + \
              [("leapday6h", "Y/M/D"), ("monthend6h", "Y/doy"), ("hour15m", "Y/M/D/H"), ("hour15m", "Y/M/D"),
-              ("y2seam6h", "Y2/M/D")]
+              ("y2seam6h", "Y2/M/D"), ("leapday6h", "Y/doy")]
     for tid in range(1, n_sessions + 1):
         emb_name, layout = combos[tid % len(combos)]
         recs.append(record_session(rng, tid, emb_name, layout, rng.randint(*nfiles), T))
@@ -354,7 +354,8 @@ def run(ctx):
     six = [("yearend6h", l) for l in ("flat", "Y", "Y/M", "Y/M/D", "Y/doy", "tag/Y/M/D", "Y/tag/M/D", "Y2/M/D", "YM/D", "fix/Y/M/D",
                                         "Y/M/D/tag", "Y/M/tag/D", "Y/doy/tag")] + \
           [("leapday6h", "Y/M/D"), ("monthend6h", "Y/doy"), ("y2seam6h", "Y2/M/D"), ("hour15m", "Y/M/D/H"),
-           ("hour15m", "Y/M/D"), ("leapday6h", "Y/M/D/tag"), ("hour15m", "Y/M/D/tag")]
+           ("hour15m", "Y/M/D"), ("leapday6h", "Y/M/D/tag"), ("hour15m", "Y/M/D/tag"), ("leapday6h", "Y/doy"),
+           ("leapday6h", "Y/doy/tag")]
     items = []
     for n, c in enumerate(cases):
         if quick:
